@@ -59,7 +59,7 @@ func (g *c12gen) intn(lo, hi int) int { return rapid.IntRange(lo, hi).Draw(g.t, 
 func (g *c12gen) flip() bool          { return rapid.Bool().Draw(g.t, "b") }
 
 func (g *c12gen) payloadVar() *m.E {
-	return m.EName(rapid.SampledFrom([]string{"p0", "p1", "p2", "sh", "sj", "sa", "st", "sn", "bs", "pb", "ob", "on"}).Draw(g.t, "pv"))
+	return m.EName(rapid.SampledFrom([]string{"p0", "p1", "p2", "sh", "sj", "sa", "st", "sn", "bs", "pb", "ob", "on", "sh5"}).Draw(g.t, "pv"))
 }
 
 func (g *c12gen) text() *m.N {
@@ -213,6 +213,10 @@ func c12Ctx(t *rapid.T) map[string]sb.V {
 		"pb": {K: "ptr", E: []sb.V{{K: "boolstringer", S: pl(), B: true}}},
 		"ob": {K: "boolean", B: true}, "on": {K: "number", N: 2.5},
 		"sn": {K: "safe", TS: []string{"css"}, E: []sb.V{{K: "safe", TS: []string{"html"}, E: []sb.V{str("<RAW4;>")}}}},
+		// sh5 is safe for html only; sw5 (never printed) is the same object
+		// marked for js as well: making it must not widen sh5
+		"sh5": {K: "safe", TS: []string{"html"}, E: []sb.V{str("<RAW5&>")}},
+		"sw5": {K: "wrapof", S: "sh5", TS: []string{"js", "css"}},
 	}
 }
 
@@ -284,7 +288,7 @@ func init() {
 		ID:        "C12",
 		Level:     "exploration",
 		Technique: "property-based testing (rapid): differential between the Twig environment's automatic escaping and an explicit-escaping translation run on the core environment, plus an inert-language safety oracle",
-		Rule: "programs for twig.New over memory and string loaders: template names with extensions html, html.twig, js, js.twig, css, txt, none, .twig only, unknown (.xml, .tpl, .htm, dir.d/x) and inline sources with and without '.'; payloads with characters significant in HTML, JS, CSS and URLs carried by strings, Stringers and values marked safe for the same / another / several types (nested); prints at top level, in if/for bodies, blocks, overriding and inherited blocks of other content types, included and embedded templates, set captures, filter sections, macro bodies, conditional branches, interpolations, concatenations, array/hash elements, through raw, escape, escape(type) and neutral filters. " +
+		Rule: "programs for twig.New over memory and string loaders: template names with extensions html, html.twig, js, js.twig, css, txt, none, .twig only, unknown (.xml, .tpl, .htm, dir.d/x) and inline sources with and without '.'; payloads with characters significant in HTML, JS, CSS and URLs carried by strings, Stringers and values marked safe for the same / another / several types (nested; one of them also re-marked for further types through a second wrapper around the same object); prints at top level, in if/for bodies, blocks, overriding and inherited blocks of other content types, included and embedded templates, set captures, filter sections, macro bodies, conditional branches, interpolations, concatenations, array/hash elements, through raw, escape, escape(type) and neutral filters. " +
 			"Oracles: (E) the output equals that of the translated program in which every print is explicitly escaped for the defining template's content type as the statement prescribes (registered extension / txt -> none / otherwise html), raw and same-type safe values exempt, run on the core environment; (S) for programs of one content type, after removing the payloads deliberately routed through raw / same-type safe values the output lies in that type's inert language. " +
 			"Non-trivial: a payload contains a character special for the sink and the print is not at top level of an .html template; distinct by program and context. Context values also include types implementing Boolean and Stringer at once, Boolean only and Number only (also behind pointers); a foreign, reconfigured AutoEscapeExtension instance exists in the process; payloads of letters and digits beyond ASCII.",
 		Assumptions: []string{"the core executor and the escapers are checked by the other properties; this check decides selection of the escaper and the number of applications"},
@@ -343,8 +347,12 @@ func init() {
 			ct := contentType(cs.C.P.Tpls[0].Name, cs.C.Inline)
 			if re, ok := reInert[ct]; ok {
 				out := a.Out
-				for _, raw := range []string{"<RAW1&>", "<RAW2'>", "<RAW3\">", "<RAW4;>"} {
-					out = strings.ReplaceAll(out, raw, "")
+				// (a payload marked safe is allowed verbatim only in the types
+				// it is marked for)
+				for raw, types := range map[string]string{"<RAW1&>": "html", "<RAW2'>": "js", "<RAW3\">": "html js css", "<RAW4;>": "css html", "<RAW5&>": "html"} {
+					if strings.Contains(" "+types+" ", " "+ct+" ") {
+						out = strings.ReplaceAll(out, raw, "")
+					}
 				}
 				// payloads routed through raw are allowed verbatim: remove them too
 				hasRaw := false
